@@ -40,11 +40,25 @@ func newInitCommand() *cobra.Command {
 	return cmd
 }
 
-func initImpl(namespace string) error {
+func initImpl(namespace string) (err error) {
 	modelDir := "model"
+	_, modelDirStatErr := os.Stat(modelDir)
 	if err := os.MkdirAll(modelDir, 0775); err != nil {
 		return err
 	}
+
+	// Do not leave a partial or unusable scaffold behind when the package cannot be initialized
+	var createdFiles []string
+	defer func() {
+		if err != nil {
+			for _, createdFile := range createdFiles {
+				os.Remove(createdFile)
+			}
+			if os.IsNotExist(modelDirStatErr) {
+				os.Remove(modelDir)
+			}
+		}
+	}()
 
 	packageFilePath := path.Join(modelDir, packaging.PackageFileName)
 
@@ -56,6 +70,7 @@ func initImpl(namespace string) error {
 		}
 		return err
 	}
+	createdFiles = append(createdFiles, packageFilePath)
 	defer packageFile.Close()
 
 	data := struct{ Namespace string }{
@@ -76,11 +91,18 @@ func initImpl(namespace string) error {
 		}
 		return err
 	}
-	defer packageFile.Close()
+	createdFiles = append(createdFiles, modelFilePath)
+	defer modelFile.Close()
 
 	_, err = modelFile.WriteString(modelFileContents)
 	if err != nil {
 		return err
+	}
+
+	// The namespace is derived from the given name. Make sure that the manifest
+	// that was just written is one that yardl accepts.
+	if _, err := packaging.LoadPackage(modelDir); err != nil {
+		return fmt.Errorf("'%s' cannot be used as a package name (the derived namespace is '%s'): %w", namespace, data.Namespace, err)
 	}
 
 	fmt.Println("Initialized new package in the 'model' directory.")
